@@ -30,7 +30,7 @@ CLAIMED = {
         "technique": TECH,
     },
     "C09": {
-        "level_text": "bounded symbolic verification of the real ReplayBuffer.add (one inductive step from an arbitrary ring state with SYMBOLIC count/cursor/size and contents, capacity N<=5(12), batch width n<=N: re-establishes 'row j mod N holds transition j with all its fields for the last min(N,count) transitions, len = that count'), the _init base case, sample() under an arbitrary permutation (stored indices only, no duplicates, fields together, batch not aliased to storage) and the MultiAgentReplayBuffer save/sample path (every field and agent of a sampled row carries the same stored transition; deque keeps the last N)",
+        "level_text": "bounded symbolic verification of the real ReplayBuffer.add (one inductive step from an arbitrary ring state with SYMBOLIC count/cursor/size and contents, capacity N<=5(12), batch width n<=N, flat / dict / tuple (nested TensorDict) observations: re-establishes 'row j mod N holds transition j with all its fields for the last min(N,count) transitions, len = that count'), the _init base case, sample() under an arbitrary permutation (stored indices only, no duplicates, fields together, batch not aliased to storage) and the MultiAgentReplayBuffer save/sample path (every field and agent of a sampled row carries the same stored transition; deque keeps the last N)",
         "level_note": NOTE,
         "technique": TECH,
     },
@@ -65,7 +65,7 @@ CLAIMED = {
         "technique": TECH,
     },
     "C08": {
-        "level_text": "bounded symbolic verification of the real learn()/update()/_learn_individual() of DQN (plain, double), CQN, DDPG, TD3, MADDPG, MATD3 on real agents with stub networks (uninterpreted functions of their inputs): for all rewards, done flags, actions, network outputs, policy noise, gamma and learn counters at batch<=2(3), actions<=2(3), agents<=2(3): the pair handed to the criterion is (Q(s,a_taken), r+gamma(1-d)V') with V' = max / double-argmax / clipped-noisy-target-action / min of twin target critics / centralised critic over all agents with agent i's own reward and done; done transitions ignore the next observation; soft updates and actor steps happen exactly on policy-delay steps for every (net,target) pair; and the REAL soft_update of DQN, CQN, RainbowDQN, DDPG, TD3, MADDPG, MATD3 on the agents' real networks (fresh and cloned) with symbolic tau sets every tensor held by the target to tau*online+(1-tau)*previous (in-place writes into real tensors captured in a shadow store) and leaves the online network untouched",
+        "level_text": "bounded symbolic verification of the real learn()/update()/_learn_individual() of DQN (plain, double), CQN, DDPG, TD3, MADDPG, MATD3 on real agents with stub networks (uninterpreted functions of their inputs): for all rewards, done flags, actions, network outputs, policy noise, gamma and learn counters at batch<=2(3), actions<=2(3), agents<=2(3): the pair handed to the criterion is (Q(s,a_taken), r+gamma(1-d)V') with V' = max / double-argmax / clipped-noisy-target-action / min of twin target critics / centralised critic over all agents with agent i's own reward and done; done transitions ignore the next observation; soft updates and actor steps happen exactly on policy-delay steps for every (net,target) pair; and the REAL soft_update of DQN, CQN, RainbowDQN, DDPG, TD3, MADDPG, MATD3 on the agents' real networks (fresh, cloned, directly after a real architecture mutation, after a checkpoint round-trip, and as the SECOND consecutive update) with symbolic tau sets every tensor held by the target to tau*online+(1-tau)*previous (in-place writes into real tensors captured in a shadow store) and leaves the online network untouched",
         "level_note": NOTE + "; Rainbow's loss algebra is C18; weights on real networks are concrete seeded values (symbolic weights only on stub networks); chaining of soft updates is by induction over the one-step identity",
         "technique": TECH,
     },
